@@ -168,6 +168,52 @@ theorem bisection_post (R tol : ℚ) :
       rw [← h.1, ← absQ_eq]; exact h1
     · exact ih _ _ _ h
 
+theorem applyPost_id (post : List PostStmt) (h : ∀ s ∈ post, s.modifiesMask = false) (a : ℚ) :
+    applyPost post a = a := by
+  unfold applyPost
+  induction post generalizing a with
+  | nil => rfl
+  | cons s post ih =>
+    simp only [List.foldl_cons, h s List.mem_cons_self, Bool.false_eq_true, if_false]
+    exact ih (fun t ht => h t (List.mem_cons_of_mem _ ht)) a
+
+/-- **post-condition about the returned mask** (what the caller gets): if no statement between the
+last tolerance evaluation and `return mask` modifies `mask`, every returned mask realises the
+requested acceleration within the tolerance -/
+theorem bisection_post_returned (R tol : ℚ) (ps : List Probe) (post : List PostStmt)
+    (h : ∀ s ∈ post, s.modifiesMask = false) (a : ℚ) (n : Nat)
+    (hr : poisson R tol ps post = .returned a n) : |a - R| < tol := by
+  unfold poisson at hr
+  cases hb : bisect R tol ps 0 with
+  | returned a' n' =>
+    rw [hb] at hr
+    simp only [Outcome.returned.injEq] at hr
+    rw [← hr.1, applyPost_id post h]
+    exact bisection_post R tol ps 0 a' n' hb
+  | raised n' => rw [hb] at hr; simp at hr
+  | running n' => rw [hb] at hr; simp at hr
+
+/-- … for the generated table of post statements, whatever they compute -/
+theorem bisection_post_returned_table (R tol : ℚ) (ps : List Probe) (tbl : List (String × Bool))
+    (h : postOk tbl = true) (effect : ℚ → ℚ) (a : ℚ) (n : Nat)
+    (hr : poisson R tol ps (postOfTable tbl effect) = .returned a n) : |a - R| < tol := by
+  apply bisection_post_returned R tol ps _ _ a n hr
+  intro s hs
+  simp only [postOfTable, List.mem_map] at hs
+  obtain ⟨t, ht, rfl⟩ := hs
+  have := List.all_eq_true.mp h t ht
+  simpa using this
+
+/-- a mask-modifying statement after the tolerance test breaks it: the test saw 4.1 (within 0.2 of
+4), the caller gets a mask cropped to acceleration 4.6 -/
+theorem post_modification_violates :
+    poisson 4 (1 / 5) [⟨41 / 10, false⟩] [⟨true, fun a => a + 1 / 2⟩] = .returned (23 / 5) 1 ∧
+    ¬ |(23 / 5 : ℚ) - 4| < 1 / 5 := by
+  refine ⟨by decide +kernel, by norm_num⟩
+
+example : poisson 4 (1 / 5) [⟨41 / 10, false⟩] (postOfTable [("raise_if", false)] id) = .returned (41 / 10) 1 := by
+  decide +kernel
+
 /-- it raises only on a probe that missed the tolerance with the interval exhausted -/
 theorem bisection_raises (R tol : ℚ) :
     ∀ (ps : List Probe) (n m : Nat), bisect R tol ps n = .raised m →
